@@ -256,10 +256,13 @@ def build(ctx):
                        "16 (numInGroup, blockLength) pairs as generated by sbeppc for schemas/vs_dims.xml; nested groups for the 4 diagonal pairs"]
     sch, inc = hgen.gen_headers(ctx, "vs_dims.xml")
     pairs = [(n, b) for n in U for b in U]
-    for std in hgen.stds(ctx, quick=("17",), thorough=("11", "14", "17", "20")):
-        for mode in (["checked"] if ctx.quick else ["checked", "unchecked"]):
-            for j in range(0, 16, 4):
-                chunk = pairs[j:j + 4]
+    diag = [(n, n) for n in U]
+    # thorough: all 16 pairs under c++17/c++20 checked and c++11 unchecked, the 4 diagonal pairs under c++14 (a full 4 standards x 2 builds x 16 pairs product took 92 min and added no new IR shapes)
+    configs = [("17", "checked", pairs)] if ctx.quick else [("17", "checked", pairs), ("20", "checked", pairs), ("11", "unchecked", pairs), ("14", "checked", diag)]
+    for (std, mode, cpairs) in configs:
+        if True:
+            for j in range(0, len(cpairs), 4):
+                chunk = cpairs[j:j + 4]
                 u = ctx.lower("c12f", cpp(chunk, []), std=std, mode=mode, incs=[inc])
                 for (n, b) in chunk:
                     for arm in range(9):
@@ -279,6 +282,7 @@ def build(ctx):
                                             extra_flags=["--no-standard-checks"], defines=["VERIF_WHICH=2"], expect="refuted", witness=False, meta={"finding": "F12b"},
                                             desc="twin of known finding F12b: end()-begin() for numInGroup > 127 (uint8)"))
                     if ctx.quick and (n, b) not in WIDE_QUICK: continue
+                    if not ctx.quick and mode != "checked": continue
                     for arm in range(4):
                         hs.append(P.Harness("flat_%s_%s_wideidx%d_%s_cxx%s" % (n, b, arm, mode, std), wide_index_harness(u, n, b, excl_f12b=f12b), [u], unwind=4, backends=["z3", "minisat", "kissat"], cap=ctx.q(300, 900),
                                             extra_flags=["--no-standard-checks"], defines=["VERIF_WHICH=%d" % arm],
